@@ -140,7 +140,7 @@ static void case_c01(rng_t *r, ctx_t *c) {
 static void case_c02(rng_t *r, ctx_t *c) {
     prog_t p; prog_init(&p);
     prog_add_source(&p, 1, "src-one");
-    static const char *types[] = {"u1", "u4", "i4", "u8", "i8", "u16", "i16", "u32", "i32", "f32", "f32", "f64", "u64", "i64"};
+    static const char *types[] = {"u1", "u4", "i4", "u8", "i8", "u16", "i16", "u24", "i24", "u32", "i32", "f32", "f32", "f64", "u64", "i64"};
     const dtype_t *t = dtype_by_name(RNG_PICK(r, types));
     int dcls = rng_chance(r, 2, 3) ? DEF_TINYLEVELS : (rng_chance(r, 1, 2) ? DEF_MINIMAL : DEF_SMALL);
     struct jls_signal_def_s d, nm;
@@ -193,7 +193,7 @@ static void c09_summaries(const char *path, const model_t *m, int sig) {
     if (jd_load(&d, path)) return;
     jd_decode(&d);
     d.nerr = 0; d.nerr_total = 0;
-    if (d.sig[sig].present && m->sig[sig].dt->bits != 24) jd_check_summaries(&d, &d.sig[sig]);
+    if (d.sig[sig].present) jd_check_summaries(&d, &d.sig[sig]);
     for (int i = 0; i < d.nerr; ++i) {
         int dup = 0;
         for (int j = 0; j < i; ++j) if (!strcmp(d.err[j].rule, d.err[i].rule)) dup = 1;
@@ -811,10 +811,12 @@ static void case_c15(rng_t *r, ctx_t *c) {
             if (cnt >= 25) {
                 double *xa = calloc((size_t) cnt * 4, 8), *xb = calloc((size_t) cnt * 4, 8);
                 int32_t r1 = jls_rd_fsr_statistics(ra, 4, 0, sdf, xa, cnt), r2 = jls_rd_fsr_statistics(rb, 4, 0, sdf, xb, cnt);
-                if (r1 != r2 || (!r1 && memcmp(xa, xb, (size_t) cnt * 32))) {
+                /* the last entry is the "exact outer edge": the reader resolves it from level-0 samples, which are
+                 * legitimately synthesised for blocks omitted on request -- it is not answered purely from summaries */
+                if (r1 != r2 || (!r1 && memcmp(xa, xb, (size_t) (cnt - 1) * 32))) {
                     /* NaN-aware */
                     int diff = r1 != r2;
-                    for (int64_t e = 0; e < cnt * 4 && !diff; ++e) if (!(xa[e] == xb[e] || (xa[e] != xa[e] && xb[e] != xb[e]))) diff = 1;
+                    for (int64_t e = 0; e < (cnt - 1) * 4 && !diff; ++e) if (!(xa[e] == xb[e] || (xa[e] != xa[e] && xb[e] != xb[e]))) diff = 1;
                     if (diff) { snprintf(key, sizeof(key), "summary-statistics-differ|bits%s8", t->bits <= 8 ? "<=" : ">"); v_violation("C15", key, wj, "summary-aligned statistics differ between omission on and off (rc %d vs %d)", r2, r1); }
                 }
                 v_count("C15", "summary_aligned_statistics_compared", 1);
